@@ -1,9 +1,14 @@
 //! dvsim — deterministic simulation of darklua's frontend with fault injection.
 //! See /verif/DESIGN.md.
 
+#[allow(dead_code)]
+#[path = "/repo/src/cli/mod.rs"]
+mod cli;
+
 mod c10;
 mod c10gen;
 mod c11;
+mod calibrate;
 mod corpus;
 mod driver;
 mod exec;
@@ -12,6 +17,7 @@ mod l2;
 mod model;
 mod rng;
 mod simfs;
+mod tierb;
 
 use std::{fs::File, os::fd::FromRawFd, path::Path};
 
@@ -46,7 +52,7 @@ fn main() {
     }
     isolate_stdout();
     exec::install_panic_hook();
-    log::set_max_level(log::LevelFilter::Off);
+    exec::install_capture_logger();
     let seed: u64 = std::env::var("VERIF_SEED")
         .ok()
         .and_then(|v| v.parse().ok())
@@ -77,6 +83,23 @@ fn main() {
         "replay" => {
             let path = args.get(1).unwrap_or_else(|| usage());
             std::process::exit(driver::replay_file(&props, Path::new(path)));
+        }
+        "calibrate" => {
+            let default = driver::verif_dir().join("calibration.json");
+            let path = args.get(1).map(std::path::PathBuf::from).unwrap_or(default);
+            std::process::exit(calibrate::run(&path));
+        }
+        "digest" => {
+            // digest <C10|C11> <runs> <workers> <out-file>
+            let id = args.get(1).map(String::as_str).unwrap_or_else(|| usage());
+            let runs: usize = args.get(2).and_then(|v| v.parse().ok()).unwrap_or(1000);
+            let workers: usize = args.get(3).and_then(|v| v.parse().ok()).unwrap_or(16);
+            let path = args.get(4).unwrap_or_else(|| usage());
+            let prop = match props.iter().find(|p| p.id() == id) {
+                Some(p) => *p,
+                None => usage(),
+            };
+            std::process::exit(driver::digest_batch(prop, "quick", seed, runs, workers, Path::new(path)));
         }
         "show" => {
             let id = args.get(1).map(String::as_str).unwrap_or_else(|| usage());
